@@ -198,6 +198,17 @@ static void fiber_event_wake_waiters(fiber_manager_t* manager,
 static void fiber_event_wake_sleepers(fiber_manager_t* manager,
                                       uint64_t trigger_count) {
   fiber_spinlock_lock(&sleep_spinlock);
+#if defined(__linux__)
+  // the expirations are read from the timer inside this critical section:
+  // between the read and the update of timer_trigger_count they would exist
+  // only in a local variable, and a sleeper registering in between would be
+  // woken early
+  uint64_t timer_count = 0;
+  if (fibershim_read(timer_fd, &timer_count, sizeof(timer_count)) ==
+      sizeof(timer_count)) {
+    trigger_count += timer_count;
+  }
+#endif
   timer_trigger_count += trigger_count;
 
   waiter_el_t* to_wake = NULL;
@@ -239,14 +250,7 @@ static int fiber_poll_events_internal(uint32_t seconds, uint32_t useconds) {
   for (i = 0; i < count; ++i) {
     const int the_fd = events[i].data.fd;
     if (the_fd == timer_fd) {
-      uint64_t timer_count = 0;
-      const int ret =
-          fibershim_read(timer_fd, &timer_count, sizeof(timer_count));
-      if (ret != sizeof(timer_count)) {
-        assert(errno == EWOULDBLOCK || errno == EAGAIN);
-        continue;
-      }
-      fiber_event_wake_sleepers(manager, timer_count);
+      fiber_event_wake_sleepers(manager, 0);
     } else {
       fd_wait_info_t* const info = &wait_info[the_fd];
       fiber_spinlock_lock(&info->spinlock);
@@ -388,11 +392,7 @@ int fiber_sleep(uint32_t seconds, uint32_t useconds) {
   // timer expirations that nobody has read yet happened before this sleep
   // began. count them now; otherwise the next poller adds them after this
   // fiber has registered and wakes it early
-  uint64_t pending_count = 0;
-  if (fibershim_read(timer_fd, &pending_count, sizeof(pending_count)) ==
-      sizeof(pending_count)) {
-    fiber_event_wake_sleepers(fiber_manager_get(), pending_count);
-  }
+  fiber_event_wake_sleepers(fiber_manager_get(), 0);
 #endif
 
   fiber_spinlock_lock(&sleep_spinlock);
